@@ -219,9 +219,13 @@ Definition bound_cons (mk : dec -> option str -> cons) (n : option num) (m : opt
   | None => Some []
   | Some n => match dec_of_num n with Some d => Some [mk d m] | None => None end
   end.
+Fixpoint arg_equal (args : list arg) : option num :=
+  match args with AEqual n :: _ => Some n | _ :: r => arg_equal r | [] => None end.
+(* equal = n demands the exact length n: a lower and an upper bound n (code = .. demands nothing) *)
 Definition args_cons (args : list arg) : option (list cons) :=
-  match bound_cons CMin (arg_min args) (arg_msg args), bound_cons CMax (arg_max args) (arg_msg args) with
-  | Some a, Some b => Some (a ++ b) | _, _ => None end.
+  match bound_cons CMin (arg_min args) (arg_msg args), bound_cons CMax (arg_max args) (arg_msg args),
+        bound_cons CMin (arg_equal args) (arg_msg args), bound_cons CMax (arg_equal args) (arg_msg args) with
+  | Some a, Some b, Some c, Some d => Some (a ++ b ++ c ++ d) | _, _, _, _ => None end.
 Definition flag_msg (margs : option (list arg)) : option str := match margs with Some a => arg_msg a | None => None end.
 Definition item_cons (i : item) : option (list cons) :=
   match i with
@@ -285,20 +289,26 @@ Definition count {A} (p : A -> bool) (l : list A) : nat := List.length (filter p
 Definition is_amin a := match a with AMin _ => true | _ => false end.
 Definition is_amax a := match a with AMax _ => true | _ => false end.
 Definition is_amsg a := match a with AMsg _ _ => true | _ => false end.
+Definition is_aequal a := match a with AEqual _ => true | _ => false end.
+Definition is_acode a := match a with ACode _ => true | _ => false end.
+(* at most one of each argument; equal excludes min and max (validator crate rule) *)
 Definition args_shape (args : list arg) : bool :=
-  (count is_amin args <=? 1)%nat && (count is_amax args <=? 1)%nat && (count is_amsg args <=? 1)%nat.
+  (count is_amin args <=? 1)%nat && (count is_amax args <=? 1)%nat && (count is_amsg args <=? 1)%nat &&
+  (count is_aequal args <=? 1)%nat && (count is_acode args <=? 1)%nat &&
+  (Nat.eqb (count is_aequal args) 0 || (Nat.eqb (count is_amin args) 0 && Nat.eqb (count is_amax args) 0)).
 Definition u64_lit (n : num) : bool :=
   match n with Num neg lit =>
     negb neg && negb (Nat.eqb (List.length lit) 0) && forallb is_digit lit && (n_of_digits lit <=? 18446744073709551615)%N end.
 Definition f64_lit (n : num) : bool := match dec_of_num n with Some _ => true | None => false end.
 Definition arg_ok (numok : num -> bool) (a : arg) : bool :=
-  match a with AMin n | AMax n => numok n | AMsg _ _ => true end.
+  match a with AMin n | AMax n | AEqual n => numok n | AMsg _ _ | ACode _ => true end.
 Definition keyword (s : str) : bool :=
   str_eqb s (L "length") || str_eqb s (L "range") || str_eqb s (L "email") || str_eqb s (L "url").
 Definition item_ok (k : kind) (i : item) : bool :=
   match i with
   | ILength args => (match k with KString | KVec => true | _ => false end) && args_shape args && forallb (arg_ok u64_lit) args
-  | IRange args => (match k with KNum => true | _ => false end) && args_shape args && forallb (arg_ok f64_lit) args
+  | IRange args => (match k with KNum => true | _ => false end) && args_shape args && forallb (arg_ok f64_lit) args &&
+                   negb (existsb is_aequal args)
   | IEmail m | IUrl m => (match k with KString => true | _ => false end) &&
                          match m with Some args => forallb is_amsg args && (count is_amsg args <=? 1)%nat | None => true end
   | IOther name _ => negb (keyword name) && negb (Nat.eqb (List.length name) 0) && forallb is_ident_char name
@@ -314,6 +324,7 @@ Definition item_args (i : item) : list arg :=
 Definition flag_args (i : item) : list arg :=
   match i with IEmail (Some a) | IUrl (Some a) => a | _ => [] end.
 Definition msg_lits (args : list arg) : list str := flat_map (fun a => match a with AMsg l _ => [l] | _ => [] end) args.
+Definition code_lits (args : list arg) : list str := flat_map (fun a => match a with ACode l => [l] | _ => [] end) args.
 Definition lr_msg_lits (f : field) : list str := flat_map (fun i => msg_lits (item_args i)) (field_items f).
 Definition other_text (i : item) : list str :=
   match i with
@@ -322,7 +333,7 @@ Definition other_text (i : item) : list str :=
   | _ => [] end.
 (* text of the attribute that is not a validator keyword in validator position *)
 Definition free_text (f : field) : list str :=
-  flat_map (fun i => msg_lits (item_args i) ++ msg_lits (flag_args i) ++ other_text i) (field_items f).
+  flat_map (fun i => msg_lits (item_args i) ++ code_lits (item_args i) ++ msg_lits (flag_args i) ++ other_text i) (field_items f).
 
 (* C11-1: a negative range bound prints as [- 5] and is dropped by parse::<f64> *)
 Definition is_neg_bound (a : arg) : bool := match a with AMin (Num true _) | AMax (Num true _) => true | _ => false end.
@@ -371,9 +382,13 @@ Definition inexact_bound (dispf : str -> option str) (a : arg) : bool :=
 Definition kf_f64_inexact (dispf : str -> option str) (f : field) : bool :=
   existsb (fun i => match i with IRange args => existsb (inexact_bound dispf) args | _ => false end) (field_items f).
 
+(* C11-10: length(equal = n) is not read at all: the exact-length constraint is dropped *)
+Definition kf_length_equal (f : field) : bool :=
+  existsb (fun i => match i with ILength args => existsb is_aequal args | _ => false end) (field_items f).
+
 Definition kf_flags (dispf : str -> option str) (f : field) : list bool :=
   [kf_neg_bound f; kf_paren_in_literal f; kf_email_url_substring f; kf_keyword_in_text f;
-   kf_escape_chain f; kf_flag_message f; kf_f64_inexact dispf f].
+   kf_escape_chain f; kf_flag_message f; kf_f64_inexact dispf f; kf_length_equal f].
 Definition kf_any (dispf : str -> option str) (f : field) : bool := existsb (fun b => b) (kf_flags dispf f).
 
 (* the schema a field without validators gets (ZodVisitor, no validator code involved) *)
